@@ -18,7 +18,7 @@ EXPLANATION = (
     "inside the bracket; (R4) loop templates: every loop jumps back to its own head label and tests "
     "its condition on every iteration (the back-edge jump and the exit jump are both present); (R5) "
     "label(), jump() and jump_if_false() build names from one template in which every interpolated "
-    "field is delimited, so the name is injective in (prefix, position); (R6) template reachability, "
+    "field is delimited and the fields are the prefix and the whole position (every field of it), so the name is injective in (prefix, position); (R6) template reachability, "
     "decided by a path-sensitive symbolic walk of each construct template with computed label names "
     "(else-if-N, caseN, case-multi-expr-N-M) kept as terms: every label emitted right after an "
     "unconditional jump is targeted by a jump on the same emission path, every jump target is "
@@ -299,7 +299,49 @@ def r5_label_names_injective(ctx, rule="C02.R5"):
                "(prefix, position) pairs can produce the same name, e.g. row 1 col 11 and row 11 col 1" % items)
     ctx.decide(n_args >= 2 and items and items[0][0] == "lit", rule, rule + ":prefix-and-position", f.loc,
                "name = <literal><prefix><sep><position...>", "label names are built from %s" % items)
-    ctx.require(rule, 4)
+    # what is interpolated: the prefix and the *whole* position.  Constructs of one kind are told
+    # apart by their position only; a name that drops a field of it (row and row, no column) gives two
+    # loops on one line the same labels, and the label table keeps the last definition.
+    pv = mir.Prov(f.body)
+    pos_params = [i for i in range(1, f.argc + 1) if f.body.locals[i]["ty"].endswith("Position")]
+    str_params = [i for i in range(1, f.argc + 1) if "str" in f.body.locals[i]["ty"] or "String" in f.body.locals[i]["ty"]]
+    if len(pos_params) != 1 or not str_params:
+        raise CheckError("%s: %s does not take (prefix, position)" % (rule, f.name))
+    padt = [a for a in prog.adts.values() if a["path"].endswith("::Position") and a.get("local")]
+    all_fields = {fl["name"] for fl in padt[0]["variants"][0]["fields"]} if padt else set()
+    whole = False
+    fields = set()
+    prefix = False
+    for _b, t in f.body.calls():
+        if "fmt::rt::Argument" not in (t.get("cpath") or "") or not t["args"]:
+            continue
+        o = mir.strip_all(pv.of_operand(t["args"][0]))
+        if o[0] == "param" and o[1] + 1 in str_params:
+            prefix = True
+        if o[0] == "param" and o[1] + 1 == pos_params[0]:
+            whole = True
+        if o[0] == "field" and mir.strip_all(o[1]) == ("param", pos_params[0] - 1):
+            fields.add(o[2])
+        if o[0] == "call" and o[2] and mir.strip_all(o[2][0]) == ("param", pos_params[0] - 1):
+            # an accessor of the position: which field does it return?
+            last = o[1].split("::")[-1]
+            acc = [g for g in prog.fns.values() if g.name == last and g.impl is not None
+                   and g.impl["self_ty"].endswith("Position") and g.kind != "closure"]
+            for g in acc[:1]:
+                # the field the accessor hands back: `_0 = (*self).field`
+                for blk in g.body.blocks:
+                    for st in blk["s"]:
+                        if st["k"] == "assign" and st["p"] == [0, []] and st["r"]["k"] == "use":
+                            pl = mir.op_place(st["r"]["o"])
+                            if pl is not None and pl[0] == 1:
+                                fields |= {e["n"] for e in pl[1] if isinstance(e, dict) and "n" in e}
+    covered = whole or (all_fields and fields >= all_fields)
+    ctx.decide(prefix and covered, rule, rule + ":interpolates-prefix-and-whole-position", f.loc,
+               "the name contains the prefix and %s" % ("the whole position" if whole else "the fields %s" % sorted(fields)),
+               "the generated label name does not contain %s: two constructs of the same kind that differ only there "
+               "(two WHILE loops on one line) get the same labels, and jumps of the first land in the second"
+               % ("the prefix" if not prefix else "the whole position (only %s of %s)" % (sorted(fields), sorted(all_fields))))
+    ctx.require(rule, 5)
 
 
 def r6_template_reachability(ctx, rule="C02.R6"):
